@@ -324,3 +324,15 @@ Proof.
   induction cs as [|c r IH]; intros d I; cbn [run_singles]; [exact I|].
   apply IH. destruct (apply_one d c) as [d' res] eqn:E. cbn [fst]. eapply apply_one_inv; eauto.
 Qed.
+
+Lemma run_singles_single_active :
+  forall cs t1 t2,
+    let d := run_singles db_empty cs in
+    In t1 (db_tasks d) -> In t2 (db_tasks d) ->
+    isActive t1 = true -> isActive t2 = true -> task_chan t1 = task_chan t2 ->
+    t1 = t2 /\ active_get d (task_chan t1) = Some (t_task_id t1).
+Proof.
+  intros cs t1 t2 d I1 I2 A1 A2 C.
+  pose proof (run_singles_inv cs db_empty db_inv_empty) as I.
+  split; [eapply inv_single_active; eauto|apply (proj2 I); assumption].
+Qed.
